@@ -598,3 +598,51 @@ func init() {
 		return src, out, ok, err
 	}
 }
+
+// C14: the limit is checked at accept time, the slot is taken after the
+// handshake. The history behind the abstract counterexample (the counter at
+// its limit when incrementConnections runs): MaxConnections = 1, two TCP
+// connections accepted while neither handshake has finished, then both log in.
+func init() {
+	specialReplays["server.(*stats).incrementConnections#pre:(*stats).logServerStats/type-invariant:within-limit@b0"] = func(P *Program, v *ObligResult) (string, string, bool, error) {
+		fn := fnOfObligation(P, v.Name)
+		g := &goGen{P: P, model: v.Model, pkg: fn.Pkg.Pkg, imports: map[string]bool{"testing": true, "fmt": true, "net": true, "os": true, "time": true, "context": true, "golang.org/x/crypto/ssh": true}}
+		body := `os.Setenv("DTAIL_HOSTNAME_OVERRIDE", "h")
+		os.Chdir(t.TempDir())
+		config.Server.MaxConnections = 1
+		ctx, cancel := context.WithCancel(context.Background())
+		defer cancel()
+		s := New()
+		l, err := net.Listen("tcp", "127.0.0.1:0")
+		if err != nil {
+			t.Skip(err)
+		}
+		go s.listenerLoop(ctx, l)
+		c1, err1 := net.Dial("tcp", l.Addr().String())
+		c2, err2 := net.Dial("tcp", l.Addr().String())
+		if err1 != nil || err2 != nil {
+			t.Skip(err1, err2)
+		}
+		time.Sleep(300 * time.Millisecond) // both accepted, both passed the limit check
+		cfg := &ssh.ClientConfig{User: config.HealthUser, Auth: []ssh.AuthMethod{ssh.Password(config.HealthUser)},
+			HostKeyCallback: ssh.InsecureIgnoreHostKey(), Timeout: 5 * time.Second}
+		cc1, _, _, _ := ssh.NewClientConn(c1, l.Addr().String(), cfg)
+		cc2, _, _, _ := ssh.NewClientConn(c2, l.Addr().String(), cfg)
+		time.Sleep(300 * time.Millisecond)
+		s.stats.mutex.Lock()
+		n := s.stats.currentConnections
+		s.stats.mutex.Unlock()
+		if cc1 != nil {
+			defer cc1.Close()
+		}
+		if cc2 != nil {
+			defer cc2.Close()
+		}
+		if n > config.Server.MaxConnections {
+			panic(fmt.Sprintf("%d connections are served at once with MaxConnections = %d (both handshakes were in flight when the limit was checked)", n, config.Server.MaxConnections))
+		}`
+		src := g.testFile(fn.Pkg.Pkg, body)
+		out, ok, err := runOverlayTest(P, fn.Pkg.Pkg, src)
+		return src, out, ok, err
+	}
+}
